@@ -163,6 +163,14 @@ class Oracles:
                 self.v("C06", "%s: track lookup %s but graph says %s" % (tag, got, want), line)
             if t.get_next_track_id() in want:
                 self.v("C06", "%s: next track id %d is in use" % (tag, t.get_next_track_id()), line)
+            # ids that were not in use before this call were issued by it: each labels one segment only
+            prev = getattr(self, "_prev_tids", None)
+            if prev is not None:
+                cls_ = segments(g)
+                for k in set(want) - prev:
+                    if len({cls_[n] for n in want[k]}) > 1:
+                        self.v("C06", "%s: freshly issued track id %s was handed out while already in use: it is carried by nodes %s of different segments" % (tag, k, sorted(want[k])), line)
+            self._prev_tids = set(want)
             if "lineage_id" in act:
                 wantl = {}
                 for n in ns:
